@@ -277,6 +277,15 @@ static void invert_one(const pixman_transform_t *m, uint64_t *nt, int sample_ok)
     int ret = c11_guard(thunk_invert, args);
     char mb[400], ob[400], q0[48], q1[48], q2[48];
     if (ret < 0) { c11_fail("c11-invert-abort", "pixman_transform_invert aborts: %s; M=%s", c11_abort_msg, mat_str(m, mb, sizeof mb)); return; }
+    {   /* in place: dst == src */
+        pixman_transform_t c = *m; void *a2[2] = { &c, &c };
+        int ret2 = c11_guard(thunk_invert, a2);
+        if (ret2 < 0) { c11_fail("c11-invert-abort", "pixman_transform_invert(m, m) aborts: %s; M=%s", c11_abort_msg, mat_str(m, mb, sizeof mb)); return; }
+        if ((ret2 != 0) != (ret != 0) || (ret && memcmp(&c, &out, sizeof out))) {
+            c11_fail("c11-invert-alias", "pixman_transform_invert in place returned %d with %s, into a separate object %d with %s; M=%s", ret2, mat_str(&c, ob, sizeof ob), ret, mat_str(&out, q0, sizeof q0) ? "(see separate)" : "", mat_str(m, mb, sizeof mb));
+            return;
+        }
+    }
     if (det == 0) {
         ST_ADD(inv_singular, 1); (*nt)++;
         if (ret) c11_fail("c11-invert-true-on-singular", "pixman_transform_invert returned TRUE (%s) for a matrix whose determinant is exactly 0; M=%s", mat_str(&out, ob, sizeof ob),
